@@ -313,6 +313,7 @@ pub fn prop() -> Prop {
         assumptions: &["weights within 1e-300 .. 1e100 (no overflow of a sum of weights)", "normalised probabilities compared within 2 ulp"],
         post: None,
         watchdog_s: 60,
+        hang_is_violation: false,
         shrink_iters: 3000,
     }
 }
